@@ -17,6 +17,11 @@
 (*   "Mat"   a materialised inner slice (fresh, contiguous)                *)
 (*   "FT"    lazily transposed column-major                                *)
 (*   "FCol"  inner slice of a column-major base                            *)
+(*   "ColT"  inner slice, then lazily transposed (a non-contiguous view    *)
+(*           with a pending transposition)                                 *)
+(*   "StepT" step-2 slice, then lazily transposed                          *)
+(*   "TCol"  lazily transposed, then inner slice (a view of a tensor with  *)
+(*           a pending transposition)                                      *)
 (***************************************************************************)
 EXTENDS Tensor
 
@@ -31,6 +36,8 @@ LayoutOK(kind, s) ==
          [] kind = "Tp"   -> r >= 3 /\ Prod(s) > 1
          [] kind = "Row"  -> r >= 1 /\ s[1] >= 2
          [] kind \in {"Col", "Step", "Mat", "FCol"} -> r >= 1 /\ s[r] >= 2
+         [] kind \in {"ColT", "StepT"} -> r >= 2 /\ s[1] >= 2
+         [] kind = "TCol" -> r >= 2 /\ s[r] >= 2
          [] OTHER -> FALSE
 
 (* returns [ops, h, n]: the program, the handle of the operand, the number of handles it creates;
@@ -53,6 +60,17 @@ Recipe(kind, s, nh, et) ==
                                         Op("Slice", nh, Nils(r - 1) \o <<SlRng(0, s[r], 1)>>)>>, h |-> nh + 1, n |-> 2]
          [] kind = "Step" -> [ops |-> <<Op("New", 0, <<[s EXCEPT ![r] = 2 * @], "C", et>>),
                                         Op("Slice", nh, Nils(r - 1) \o <<SlRng(0, 2 * s[r], 2)>>)>>, h |-> nh + 1, n |-> 2]
+         [] kind = "ColT" -> LET q == Rev(s)
+                             IN [ops |-> <<Op("New", 0, <<[q EXCEPT ![r] = @ + 1], "C", et>>),
+                                           Op("Slice", nh, Nils(r - 1) \o <<SlRng(0, q[r], 1)>>),
+                                           Op("T", nh + 1, <<>>)>>, h |-> nh + 1, n |-> 2]
+         [] kind = "StepT" -> LET q == Rev(s)
+                              IN [ops |-> <<Op("New", 0, <<[q EXCEPT ![r] = 2 * @], "C", et>>),
+                                            Op("Slice", nh, Nils(r - 1) \o <<SlRng(0, 2 * q[r], 2)>>),
+                                            Op("T", nh + 1, <<>>)>>, h |-> nh + 1, n |-> 2]
+         [] kind = "TCol" -> [ops |-> <<Op("New", 0, <<Rev([s EXCEPT ![r] = @ + 1]), "C", et>>),
+                                        Op("T", nh, <<>>),
+                                        Op("Slice", nh, Nils(r - 1) \o <<SlRng(0, s[r], 1)>>)>>, h |-> nh + 1, n |-> 2]
          [] kind = "Mat" -> [ops |-> <<Op("New", 0, <<[s EXCEPT ![r] = @ + 1], "C", et>>),
                                        Op("Slice", nh, Nils(r - 1) \o <<SlRng(0, s[r], 1)>>),
                                        Op("Materialize", nh + 1, <<>>)>>, h |-> nh + 2, n |-> 3]
